@@ -121,6 +121,9 @@ func (R *HarnessResult) addUnknown(in *Interp, label string) {
 	R.Unknowns[label]++
 }
 
+// gSlots bounds the number of paths executing at once across all harnesses.
+var gSlots chan struct{}
+
 type worklist struct {
 	mu       sync.Mutex
 	cond     *sync.Cond
@@ -243,7 +246,9 @@ func runHarness(L *Loaded, spec *HarnessSpec, opts *Options, nworkers int) *Harn
 					wl.finish()
 					continue
 				}
+				gSlots <- struct{}{}
 				in.runPath(entry, p, R)
+				<-gSlots
 				wl.push(in.pending...)
 				wl.finish()
 			}
